@@ -46,6 +46,8 @@ def err_message(item, err=None):
 
 def item_key(item):
     """items are ints, or a re-used one-element buffer [id] (streams that re-yield one mutable object)"""
+    if item is None or isinstance(item, (bool, str)) or (isinstance(item, list) and not item):
+        return 0            # a falsy value standing for the first item of the stream (None, '', [], False)
     return item[0] if isinstance(item, list) else item
 
 
